@@ -87,9 +87,11 @@ def strip_lx(evs):
     return out
 
 
-def project_pair(proj, exp, act, prog):
+def project_pair(proj, exp, act, prog, inp=None):
     """proj is either a function of one event list, or (marked with .pair) a function of
-    (expected, actual, program) returning both projections."""
+    (expected, actual, program[, input]) returning both projections."""
+    if getattr(proj, "pair", False) == 2:
+        return proj(exp, act, prog, inp)
     if getattr(proj, "pair", False):
         return proj(exp, act, prog)
     return proj(exp), proj(act)
@@ -103,7 +105,7 @@ def replay_violations(out, fr, proj, byid, what, max_report=5):
         req = m["req"]
         exp = req["ev"]
         act = strip_lx(m["actual"])
-        pe, pa = project_pair(proj, exp, act, byid[req["p"]])
+        pe, pa = project_pair(proj, exp, act, byid[req["p"]], req["inp"])
         if pe == pa:
             other += 1
             continue
@@ -276,6 +278,92 @@ def proj_c06(evs):
             out.append((k,))
             break
     return out
+
+
+def utf8_len(c):
+    return 1 if c < 0x80 else 2 if c < 0x800 else 3 if c < 0x10000 else 4
+
+
+WIDTH0 = {769, 8203, 8205}
+WIDTH2 = {28450, 12354, 65313, 128512}
+
+
+def loc_table(inp):
+    """byte index -> (line, col) by scanning the input from its beginning (C06's definition), for
+    the characters of the location alphabet"""
+    tab = {0: (0, 0)}
+    l = c = b_ = 0
+    for ch in inp:
+        b_ += utf8_len(ch)
+        if ch == 10:
+            l, c = l + 1, 0
+        elif ch == 9:
+            c += 4
+        else:
+            c += 0 if ch in WIDTH0 else 2 if ch in WIDTH2 else 1
+        tab[b_] = (l, c)
+    return tab
+
+
+def c06_intrinsic(evs, inp):
+    """C06 judged on a recorded trace alone (used for what follows an InvalidToken, where the
+    reference position depends on C08): every location is on a character boundary and its
+    line/column are those of a scan from the beginning; start <= end; match_() is the input slice;
+    tokens and accumulated matches never start before the end of the previous item, and never
+    at or before the location of a preceding InvalidToken (the failed attempt examined at least
+    one character)."""
+    tab = loc_table(inp)
+    bytes_ = []
+    for ch in inp:
+        bytes_.append(utf8_len(ch))
+    starts = {}
+    off = 0
+    for i, n in enumerate(bytes_):
+        starts[off] = i
+        off += n
+    starts[off] = len(inp)
+    last_end = 0
+    after_invalid = -1
+
+    def ok_loc(l):
+        return l[2] in tab and tab[l[2]] == (l[0], l[1])
+
+    for i, e in enumerate(evs):
+        k = e["k"]
+        if k in "AT":
+            s_, e_ = (e["ms"], e["me"]) if k == "A" else (e["s"], e["e"])
+            if not ok_loc(s_) or not ok_loc(e_):
+                return "event %d: location %s/%s is not the line/column of a scan up to that byte" % (i, s_, e_)
+            if s_[2] > e_[2]:
+                return "event %d: start after end" % i
+            if s_[2] < last_end:
+                return "event %d: starts at byte %d before the end %d of the previous item" % (i, s_[2], last_end)
+            if after_invalid >= 0 and s_[2] <= after_invalid and after_invalid < off:
+                return "event %d: starts at byte %d, not after the InvalidToken at byte %d" % (i, s_[2], after_invalid)
+            if k == "A" and "tx" in e and e["tx"] != inp[starts[s_[2]]:starts[e_[2]]]:
+                return "event %d: match_() is not input[start..end]" % i
+            if k == "T":
+                last_end = e_[2]
+                after_invalid = -1
+        elif k in "IC":
+            if not ok_loc(e["at"]):
+                return "event %d: error location is not the line/column of a scan up to that byte" % i
+            if e["at"][2] < last_end:
+                return "event %d: error located before the end of the previous item" % i
+            if k == "I":
+                after_invalid = e["at"][2]
+                last_end = e["at"][2]
+        elif k in "PH":
+            break
+    return "ok"
+
+
+def proj_c06_pair(exp, act, prog, inp):
+    return (proj_c06(exp) + [("rest-of-trace", c06_intrinsic(exp, inp))],
+            proj_c06(act) + [("rest-of-trace", c06_intrinsic(act, inp))])
+
+
+proj_c06_pair.pair = 2
 
 
 def proj_c07(evs):
@@ -470,8 +558,10 @@ def check_C06(tier, seed):
     progs = F.random_general(seed, n, 100, k=k, nsets=(1,), nrules=(2, 3, 4), p_eoi=0.1,
                              menu_sizes=(1, 2), p_fal=0.1, letters=LOC_SIGMA[:6] if False else (97, 10, 9, 233, 769, 28450, 128512),
                              sigma=LOC_SIGMA, depth=2)
+    progs += F.join_templates(seed + 3, n // 3, 6000, k=k + 1, letters=(97, 10, 233, 28450), sigma=(97, 10, 233, 28450, 769),
+                              p_eoi=0.2, nsets=(1, 2), p_ctx=0.3)
     return generic_replay_check(
-        "C06", tier, progs, proj_c06,
+        "C06", tier, progs, proj_c06_pair,
         "a location (line, column, byte index) or match text differs from the fold over the input",
         "programs: seeded random definitions over the location alphabet {a, newline, tab, e-acute "
         "(2 bytes), combining acute (2 bytes, width 0), CJK (3 bytes, width 2), emoji (4 bytes, "
@@ -693,7 +783,7 @@ def fine_part(out, pid, tier, byid, reqs, fine_runs, proj, what, max_leads=40, w
                 prog = byid[m["req"]["p"]]
                 if prog.id in found_progs:
                     continue
-                pe, pa = project_pair(proj, m["req"]["ev"], strip_lx(m["actual"]), prog)
+                pe, pa = project_pair(proj, m["req"]["ev"], strip_lx(m["actual"]), prog, m["req"]["inp"])
                 if pe != pa:
                     found_progs.add(prog.id)
                     n_wit += 1
@@ -777,7 +867,7 @@ def trace_part(out, pid, tier, progs, ws, batches, seed, n_runs, maxlen, proj, w
         act = strip_lx(r["ev"])
         if rq["ctor"] >= 2:
             exp = [{k: v for k, v in e.items() if k != "tx"} for e in exp]
-        pe, pa = project_pair(proj, exp, act, prog)
+        pe, pa = project_pair(proj, exp, act, prog, r["inp"])
         if pe == pa:
             other += 1
             continue
@@ -2426,7 +2516,7 @@ def replay(pid, path):
         if pl.get("clone_at", -1) >= 0 or pid in ("C14", "C15"):
             differs = True
         else:
-            pe, pa = project_pair(proj, exp, act, prog)
+            pe, pa = project_pair(proj, exp, act, prog, pl["input"])
             differs = pe != pa
         if differs:
             out.violations.append({"key": "replay", "desc": "still violated: expected %s, real lexer gave %s" % (
@@ -2497,7 +2587,7 @@ def setup():
 
 
 PROJ.update({"C01": proj_tokens, "C02": lambda evs: proj_tokens(evs, stop_at_invalid=False),
-             "C03": proj_c03, "C04": proj_c04, "C05": proj_c05, "C06": proj_c06, "C07": proj_c07,
+             "C03": proj_c03, "C04": proj_c04, "C05": proj_c05, "C06": proj_c06_pair, "C07": proj_c07,
              "C08": proj_c08, "C10": proj_c10, "C11": lambda evs: proj_tokens(evs, stop_at_invalid=False)})
 
 CHECKS = {
